@@ -37,6 +37,7 @@ func be32At(b *Expr, off int64) *Expr {
 func checkC18(c *Check) {
 	p := c.P
 	c.flagAccessors("C18.1 flag-accessors")
+	c.specConstants("C18.1 spec-constants", "NOTIF_CODE_UPDATE_MESSAGE_ERR", "NOTIF_SUBCODE_MALFORMED_ATTR_LIST", "NOTIF_SUBCODE_UNRECOGNIZED_WELL_KNOWN_ATTR", "NOTIF_SUBCODE_MISSING_WELL_KNOWN_ATTR", "NOTIF_SUBCODE_ATTR_FLAGS_ERR", "NOTIF_SUBCODE_ATTR_LEN_ERR", "NOTIF_SUBCODE_INVALID_ORIGIN_ATTR", "NOTIF_SUBCODE_INVALID_NEXT_HOP_ATTR", "NOTIF_SUBCODE_OPTIONAL_ATTR_ERR", "NOTIF_SUBCODE_INVALID_NETWORK_FIELD", "NOTIF_SUBCODE_MALFORMED_AS_PATH", "PATH_ATTR_ORIGIN", "PATH_ATTR_AS_PATH", "PATH_ATTR_NEXT_HOP", "PATH_ATTR_MED", "PATH_ATTR_LOCAL_PREF", "PATH_ATTR_ATOMIC_AGGREGATE", "PATH_ATTR_AGGREGATOR", "PATH_ATTR_COMMUNITY", "PATH_ATTR_ORIGINATOR_ID", "PATH_ATTR_CLUSTER_LIST", "PATH_ATTR_MP_REACH_NLRI", "PATH_ATTR_MP_UNREACH_NLRI", "PATH_ATTR_LARGE_COMMUNITY")
 	c.flagsValidate("C18.1 flags-validate")
 	addrOf := func(lo int64) func(c *Check, fn *ssa.Function, st *State, b *Expr) (bool, string) {
 		return func(c *Check, fn *ssa.Function, st *State, b *Expr) (bool, string) {
